@@ -97,6 +97,10 @@ pub fn check(rep: &mut Rep, tab: &[(i64, i64)], y: i32, m: u8, d: u8, h: u8, mi:
         rep.class(cls);
     }
     rep.nt(h64(&[y as u64, m as u64, d as u64, h as u64, mi as u64, s as u64, ns as u64, scale_idx(ts)]));
+    rep.log_event("greg", || {
+        let cnt = if want == Want::Accept && s < 60 { count_of(&Fields { y: y as i64, m: m as u32, d: d as u32, h: h as u32, mi: mi as u32, s: s as u32, ns }, ts).to_string() } else { "none".to_string() };
+        format!("\"f\":[{},{},{},{},{},{},{}],\"scale\":\"{:?}\",\"want\":\"{:?}\",\"count\":\"{}\"", y, m, d, h, mi, s, ns, ts, want, cnt)
+    });
     rep.sample(cls, || format!("{} => {:?}", det(), want));
     let got = guard(|| (Epoch::maybe_from_gregorian(y, m, d, h, mi, s, ns, ts), is_gregorian_valid(y, m, d, h, mi, s, ns)));
     match got {
